@@ -202,3 +202,15 @@ Proof.
   split; [now apply relative_se3_recovers|now apply se3_inverse_involutive].
 Qed.
 Print Assumptions C09_translated_relative_se3_group_laws.
+
+(* ---- the angle as a class function (added after every property had a check) ---- *)
+Theorem C09_angle_of_inverse_and_conjugate : forall c r : M3R, Orth c ->
+  angleR (mt r) = angleR r /\ angleR (mm (mm c r) (mt c)) = angleR r.
+Proof. intros c r O. split; [apply angle_of_inverse|now apply angle_conjugation_invariant]. Qed.
+Print Assumptions C09_angle_of_inverse_and_conjugate.
+Theorem C09_angle_to_identity_is_own_angle : forall r : M3R, dist_angle I3 r = angleR r /\ dist_angle r I3 = angleR r.
+Proof. exact dist_angle_identity. Qed.
+Print Assumptions C09_angle_to_identity_is_own_angle.
+Theorem C09_angle_left_and_right_difference_agree : forall a b : M3R, dist_angle a b = angleR (mm b (mt a)).
+Proof. exact dist_angle_as_right_difference. Qed.
+Print Assumptions C09_angle_left_and_right_difference_agree.
